@@ -149,6 +149,13 @@ def builder_for(op):
             b.fail_exc = EXC[fault['exc']]('injected')
         return b
     cls = G.Builder if op['gen'] == 'c01' else mcgen.Builder
+    if fault is None and not op.get('read'):
+        # the same function object every time this spec is built without
+        # a fault in this history ("repeated builds")
+        key = op['gen'] + json.dumps(spec, sort_keys=True)
+        if key not in ENV_BUILDERS:
+            ENV_BUILDERS[key] = cls(spec)
+        return ENV_BUILDERS[key]
     if fault and fault['kind'] == 'func':
         at = fault['at'] % (len(spec['nodes']) + 1)
         return cls(spec, fail_at=at, fail_exc=EXC[fault['exc']]('injected'))
